@@ -110,8 +110,18 @@ def rename(act, sfx):
     return d
 
 
-def unrename(obj, sfx):
-    return json.loads(json.dumps(obj).replace(sfx, ""))
+def unrename(obj, sfx, anon_offset=0):
+    """undo the renaming apart; nested anonymous aggregates are numbered "$N" through the whole
+    cdef of the module, so the numbers of this behaviour are shifted back"""
+    import re
+    text = json.dumps(obj).replace(sfx, "")
+    if anon_offset:
+        text = re.sub(r"\$(\d+)", lambda m: "$%d" % (int(m.group(1)) - anon_offset), text)
+    return json.loads(text)
+
+
+def count_anon(decls):
+    return sum(1 for d in decls if "fs" in d for f in d["fs"] if f[1][0] == "anon")
 
 
 # --------------------------------------------------------------------------- one module = several behaviours
@@ -140,7 +150,7 @@ def as_int(v):
     return int(v)
 
 
-def observe_one(ffi, lib, decls, plan, sfx, seed):
+def observe_one(ffi, lib, decls, plan, sfx, seed, anon_offset=0):
     import random
     rng = random.Random(seed)
     names = mg.names_of(decls)
@@ -213,7 +223,7 @@ def observe_one(ffi, lib, decls, plan, sfx, seed):
             except Exception as e:
                 r["wc"] = "error:" + type(e).__name__
             rw[g] = r
-    return unrename({"obs": obs, "gcc": gcc, "calls": calls, "rw": rw, "addr": addr}, sfx)
+    return unrename({"obs": obs, "gcc": gcc, "calls": calls, "rw": rw, "addr": addr}, sfx, anon_offset)
 
 
 def build_pack(pack, workdir, tag):
@@ -230,9 +240,11 @@ def build_pack(pack, workdir, tag):
     ma.build_api(core, ffi, name, workdir)
     mod = ma.import_from(workdir, name)
     recs = []
+    offset = 0
     for idx, beh, sfx, rb, decls, cdef, csrc, plan in parts:
         rec = {"id": idx, "beh": beh, "err": ""}
-        rec.update(observe_one(mod.ffi, mod.lib, decls, plan, sfx, idx))
+        rec.update(observe_one(mod.ffi, mod.lib, decls, plan, sfx, idx, offset))
+        offset += count_anon(decls)
         rec["cdef"] = cdef.replace(sfx, "")
         rec["csource"] = csrc.replace(sfx, "")
         recs.append(rec)
@@ -332,7 +344,7 @@ def random_case(rng):
         tries += 1
     beh = list(g.beh)
     # single-point mutation of the cdef against the same C source
-    structs = [a for a in beh if a["a"] == "DeclStruct" and all(f[2] < 0 for f in a["fs"])]
+    structs = [a for a in beh if a["a"] == "DeclStruct" and all(f[2] < 0 and f[1][0] != "anon" for f in a["fs"])]
     consts = [a for a in beh if a["a"] == "DeclConst"]
     enums = [a for a in beh if a["a"] == "DeclEnum"]
     c = rng.randrange(5)
